@@ -14,6 +14,10 @@ KANI_UNITS = {
 }
 
 NATIVE_UNITS = {
+    "panic_probe": {"file": "src/interpreter/interpreter.rs", "source": "panic_probe.rs",
+                    "modpath": "interpreter::interpreter", "test": "verif_native_panic_probe",
+                    "role": "witness", "for_fns": ["pop_proper", "pop", "number", "digital10", "number_suffix", "real",
+                                                   "eval_primitive", "from_pair_iter"]},
     "tail_arity_witness": {"file": "src/interpreter/interpreter.rs", "source": "tail_arity.rs",
                            "modpath": "interpreter::interpreter", "test": "verif_native_tail_arity_witness",
                            "role": "witness", "for_fns": ["apply_procedure"]},
@@ -31,6 +35,20 @@ _TAIL_UNVERIFIED = [
 ]
 
 PROPS = {
+    "C07": {
+        "verus": ["pair_pop", "values_num", "interp_tail", "repl_complete", "macro_transform", "lexer_pos"],
+        "kani": ["values"], "native": ["panic_probe"],
+        "level": "proof",
+        "explanation": "Panic-freedom (no overflow, no failing unwrap/expect, no reachable todo!/unreachable!/panic!, no out-of-bounds index) "
+                       "is proved per function for the named set: it is part of what Verus checks when it verifies a function body.",
+        "unverified": ["whole-pipeline panic-freedom for arbitrary text would need every function reachable from eval under contract "
+                       "(reader, expander, evaluator, 60 builtins); only the named functions are proved",
+                       "ParameterFormals::as_name (unreachable!() for nested formals such as ((lambda ((a) b) a) 1 2)): its safety is an "
+                       "invariant established by transform_formals (closures + generic recursion, outside Verus)",
+                       "file_char_stream (line.unwrap() on invalid UTF-8): file I/O, no model",
+                       "'after the error the same interpreter still evaluates further input': a history property"],
+        "assumptions": [],
+    },
     "C15": {
         "verus": ["lexer_pos", "interp_loc"], "kani": [], "native": [],
         "level": "proof",
